@@ -19,11 +19,11 @@ def validate(ck, traces):
         t = by[d["id"]]
         if t["failat"] >= 0:
             what = ("spec %r, %s callbacks, failure injected at callback %d: %d events recorded, ok=%s, error wraps the injected one=%s (%s)" %
-                    (t["text"].replace("\n", " "), t["mode"], t["failat"], len(t["events"]), t["ok"], t["wraps"], t["err"][:80]))
+                    (vp.short_blanks(t["text"]), t["mode"], t["failat"], len(t["events"]), t["ok"], t["wraps"], t["err"][:80]))
         else:
             ev = t["events"][d["at"]] if d["at"] < len(t["events"]) else "end of trace"
             what = ("spec %r, %s callbacks: event %d (%s) is not the step of the documented derivation (expected action %s, next token %d)" %
-                    (t["text"].replace("\n", " "), t["mode"], d["at"], json.dumps(ev)[:200], d["expect"], d["tk"] + 1))
+                    (vp.short_blanks(t["text"]), t["mode"], d["at"], json.dumps(ev)[:200], d["expect"], d["tk"] + 1))
         ck.violation(what, {"property": "C18", "kind": "callbacks", "text": t["text"], "decls": t["decls"], "mode": t["mode"], "failat": t["failat"]})
     ck.coverage["traces_validated_against_impl"] += len(traces)
     # acceptance: every trace must have been consumed to the end ("done") or reported
